@@ -5,6 +5,8 @@ CONSTANTS
   Variants <- V3
   BodyOf <- Body3
   MaxOps = 6
+  MaxT = 0
+  AstHash = TRUE
   MaxTorn = 0
   TransitiveKey = FALSE
   DeepHeader = FALSE
